@@ -97,3 +97,16 @@ func VerifRRValueEq(a, b RRValue) bool {
 	}
 	return false
 }
+
+// VerifCompiledPattern returns the regular expression text Match compiles for r
+// ("" when the pattern matches everything).
+func VerifCompiledPattern(r *NetworkRule) string {
+	p := patternToRegexp(r.pattern)
+	if p == RegexAnyCharacter {
+		return ""
+	}
+	if !r.IsOptionEnabled(OptionMatchCase) {
+		p = "(?i)" + p
+	}
+	return p
+}
